@@ -3,4 +3,4 @@
 Require Import Pk.Indexes.
 Require Extraction.
 Require Import ExtrOcamlBasic.
-Extraction "c10_model.ml" init step_impl step_legacy enabled all_streams.
+Extraction "c10_model.ml" init step_impl step_legacy enabled all_streams restart_impl.
